@@ -141,6 +141,12 @@ package fox
 //@ effects (*Router).Reverse : nolock props C06
 //@ effects (*Router).Len : nolock props C06
 //@ effects (*Router).Iter : nolock props C06
+//@ -- the iterators run their loop body between yields: nothing they reach may take (or try) a lock
+//@ effects (Iter).Methods : nolock props C06
+//@ effects (Iter).Routes : nolock props C06
+//@ effects (Iter).Reverse : nolock props C06
+//@ effects (Iter).Prefix : nolock props C06
+//@ effects (Iter).All : nolock props C06
 //@ effects (*Txn).Has : nolock props C06
 //@ effects (*Txn).Route : nolock props C06
 //@ effects (*Txn).Reverse : nolock props C06
